@@ -1,5 +1,7 @@
 import MemVerif.Model.Pool
 import MemVerif.Props.C09
+import MemVerif.Props.C07
+import MemVerif.Props.C01Stack
 /-!
 # C08 — composable deallocation recognises exactly its own memory
 
@@ -64,6 +66,58 @@ theorem C08_fallback_routes_home (e : AExpr) (hd : C09.Distinct e) (t t' : Bool)
   simp only [List.mem_singleton] at this
   subst this
   exact ⟨rfl, rfl⟩
+
+/-! ### stacks: `try_deallocate_*` only answers the ownership question -/
+
+/-- **`iteration_allocator`: memory of every iteration is recognised.** Whatever `allocate`/`try_allocate` hands out
+in the current iteration lies inside the allocator's block, so `try_deallocate_node/array` (`block_.contains`) answers
+`true` for every byte of it … -/
+theorem C08_iter_recognises_own (cfg : Cfg) (it it' : Iter) (hI : it.Inv) (size k : Nat) (hk : k < 48) (hs : size < 2 ^ 64)
+    (hf : cfg.fence ≤ 2 ^ 16) (p : Nat) (h : it.tryAllocate cfg size (2 ^ k) = (it', .ok p)) :
+    ∀ q, p ≤ q → q < p + size → it'.contains q = true := by
+  obtain ⟨_, _, h1, h2, _⟩ := C07.C07_alloc_in_region cfg it hI size k hk hs hf p it' h
+  have hblk : it'.block = it.block := by
+    unfold Iter.tryAllocate at h
+    simp only at h
+    split at h
+    · simp at h
+    · simp only [Prod.mk.injEq] at h; rw [← h.1]
+  have hs0 := Iter.blockStart_mono it hI.geo (Nat.zero_le it.cur) (Nat.le_of_lt hI.cur)
+  have he0 := Iter.blockStart_mono it hI.geo (show it.cur + 1 ≤ it.n from hI.cur) (Nat.le_refl _)
+  rw [Iter.blockStart_zero it hI.geo] at hs0
+  rw [Iter.blockStart_n it hI.geo] at he0
+  intro q hq1 hq2
+  unfold Iter.contains
+  rw [hblk, decide_eq_true_eq]
+  unfold Iter.blockEnd at h2
+  omega
+
+/-- … and it stays recognised through any number of `next_iteration()` calls (the block never changes), in
+particular after the iteration counter has wrapped around -/
+theorem C08_iter_contains_next (it : Iter) (p : Nat) : it.nextIteration.contains p = it.contains p := rfl
+
+/-- memory outside the block — in particular the first byte after it, where a sibling allocator's block may start —
+is never recognised -/
+theorem C08_iter_foreign (it : Iter) (p : Nat) (h : p < it.block.base ∨ it.block.base + it.block.size ≤ p) :
+    it.contains p = false := by
+  unfold Iter.contains
+  rw [decide_eq_false_iff_not]
+  omega
+
+/-- **`memory_stack`: every live allocation is recognised** (`try_deallocate_node/array` = `arena_.owns(ptr)`): at every
+point of every history each byte of each allocation in the caller's ledger is owned. -/
+theorem C08_stack_recognises_own (cfg : Cfg) (e : EnvS) (hf : cfg.fence ≤ 2 ^ 16) (s : MemStack) (hs : s.Inv)
+    (hsrc : s.arena.src.NonStatic) (k : Nat) (ops : List SOp) (hw : SOpsWf ops)
+    (hlen : s.arena.used.length + s.arena.cached.length + (runOps cfg e s k ops).acquired.length < 2 ^ 64)
+    (henv : BlocksOk (s.arena.used ++ s.arena.cached ++ (runOps cfg e s k ops).acquired))
+    (live : List (Nat × Nat)) (hq : SQ s.cur s.arena.used live) :
+    ∀ a ∈ topLive cfg e s k live ops, ∀ q, a.1 ≤ q → q < a.1 + a.2 → (runOps cfg e s k ops).st.arena.owns q = true := by
+  intro a ha q h1 h2
+  obtain ⟨b, hb, hb1, hb2⟩ := (C01Stack.C01_stack_live_disjoint_inside cfg e hf s hs hsrc k ops hw hlen henv live hq).2 a ha
+  apply C08_owns_inside _ b hb
+  have : implOff = 16 := by decide
+  simp only [Blk.usable]
+  omega
 
 /-- non-vacuity: two pools on adjacent upstream blocks; the boundary address belongs to the upper one only -/
 example :
